@@ -11,7 +11,7 @@ TECH = "deterministic simulation with fault injection: seeded search over event/
 P = {
  "C01": ("exploration", "2.2-2.4, 3/C01",
    TECH + "fault-free profile of the session world checked against the ideal channel model",
-   "Seeded worlds over all 36 sealing suites x 4 modes (round-robin, then random): key provisioning, sender setup with a scripted RNG, delayed receiver setup, in-order delivery of every sealed message through the four seal/open pairings and the single-shot forms, histories crossing 2^8 (2^16 thorough). Oracle: ideal channel (i-th delivery returns i-th plaintext, |ct|=|pt|+Nt, in-place length unchanged). Sampled inputs, exhaustive suites x modes; evidence, not proof.",
+   "Seeded worlds over all 36 sealing suites x 4 modes (round-robin, then random): key provisioning, sender setup with a scripted RNG, delayed receiver setup, in-order delivery of every sealed message through the four seal/open pairings and the single-shot forms, histories crossing 2^8 (2^16 thorough). Oracle: ideal channel (i-th delivery returns i-th plaintext, |ct|=|pt|+Nt, in-place length unchanged). As built (DESIGN 3, rounds 8-14): one run in eight hops between OS threads; arguments with equal contents alias one buffer; aad and in-place buffer are adjacent regions of one allocation; special-but-legal keys (searched special DH results, X25519 scalars special after clamping); one message of 2^32+17 bytes and > 4 GiB through one context per batch; a third build profile (/verif/dbgprobe: fixed long-input transcript with hpke unoptimised vs release, same digest). Sampled inputs, exhaustive suites x modes; evidence, not proof.",
    "Trusts the RustCrypto primitives; no reference to RFC values (that is C02)."),
  "C02": ("exploration", "2.4, 3/C02",
    TECH + "cross-implementation sessions real<->refhpke through the RNG seam, op-by-op byte comparison (refinement against an executable reference model)",
@@ -71,7 +71,7 @@ P = {
    "Same trusted base as C02."),
  "C16": ("exploration", "3/C16",
    TECH + "teardown events at arbitrary points of faulted histories; memory of the dropped slot scanned for the model's secrets; drop ledger hook",
-   "Contexts torn down fresh, after successes, failures, injected SealError, exhaustion, export-only panics, failed second DH; the value is moved into a MaybeUninit slot, scanned for refhpke's base_nonce and exporter_secret (must be present before, gone after drop_in_place); KEM shared secrets likewise; ledger: every dropped AeadKey/AeadNonce/ExporterSecret/SharedSecret buffer is all-zero, the temporary AEAD key and the shared secret are dropped before setup returns.",
+   "Contexts torn down fresh, after successes, failures, injected SealError, exhaustion, export-only panics, failed second DH; the value is moved into a MaybeUninit slot, scanned for refhpke's base_nonce and exporter_secret (must be present before, gone after drop_in_place); As built: dropped values sit at byte offsets 0..7; a heap watch (the simulator's allocator inspects, then wipes, every block freed while armed around drop / export / seal / open) extends the rule to heap memory; sessions whose base nonce / key / exporter secret / shared secret have searched special shapes (zero bytes at an end, at every 8th position). KEM shared secrets likewise; ledger: every dropped AeadKey/AeadNonce/ExporterSecret/SharedSecret buffer is all-zero, the temporary AEAD key and the shared secret are dropped before setup returns.",
    "Cannot see copies left in dead stack frames/registers or the cipher's own round keys (outside the property). Runs single-threaded because the ledger is process-global."),
 }
 
@@ -110,7 +110,7 @@ manifest = {
     ] + extra.get("engines", []),
     "checks": checks,
     "not_applicable": extra["not_applicable"],
-    "notes": "All checks rebuild the simulator from /repo's working tree (path dependency). exit 0 held / 1 VIOLATION / 2 harness error. VERIF_SEED selects the master seed (default 1). Known findings: /verif/known_findings.json.",
+    "notes": "C17 (c17/run.py) compares a seeded transcript per enabled KEM across feature subsets and guard on/off: positive traffic, NEG / NEG-ALLOC (rejections), RNG-STREAM (bytes drawn by consecutive operations), WIPE (in-place and boxed drops under an interposed free(), probe built at opt-level 3), export-only panics, zero-x edge vectors; plus API presence, per-subset unit tests, example/bench builds, guard-off baseline. C18 (c18/run.py): compile-time Send/Sync assertions, token-passing simulation with preemption at the RNG / AEAD seams (OnNested) and a process-history reference, a 64 KiB small-stack probe, uncontrolled concurrent exports/sessions, Miri (thorough). All checks rebuild the simulator from /repo's working tree (path dependency). exit 0 held / 1 VIOLATION / 2 harness error. VERIF_SEED selects the master seed (default 1). Known findings: /verif/known_findings.json.",
 }
 json.dump(manifest, open("/verif/MANIFEST.json", "w"), indent=1)
 print("wrote MANIFEST.json with", len(checks), "checks")
